@@ -22,12 +22,48 @@ ASSUMPTIONS = [
 MECH = ["nutree.diff:diff_tree", "nutree.diff:_copy_children", "nutree.diff:_find_child", "nutree.tree:Tree.diff"]
 MIN_NONTRIVIAL = {"quick": 1500, "thorough": 40000}
 ALPH = list("abcdefgh")
+# labels of other types: numbers whose str() equals a text label, and value objects with a guarded __eq__
+ALPH_MIXED = ["a", "b", "c", "1", 1, "2.5", 2.5, (1,), "(1,)"]
+
+
+class Label:
+    """Value object with the usual hand-written comparison (False, not NotImplemented, for foreign operands)."""
+
+    def __init__(self, key):
+        self.key = key
+
+    def __eq__(self, other):
+        if not isinstance(other, Label):
+            return False
+        return self.key == other.key
+
+    def __hash__(self):
+        return hash(("label", self.key))
+
+    def __repr__(self):
+        return f"L{self.key}"
+
+    __str__ = __repr__
+
+
+ALPH_OBJ = [Label(c) for c in "abcdefg"]
+MODE = {"alph": ALPH, "sub": False}
 
 
 def rand_tree(rng, name, n):
     from nutree import Tree
 
-    t = Tree(name)
+    ALPH = MODE["alph"]
+    if MODE["sub"]:
+        class KeyedTree(Tree):
+            """A user subclass with its own id scheme (a function of the data)."""
+
+            def calc_data_id(self, data):
+                return "k:" + repr(data)
+
+        t = KeyedTree(name)
+    else:
+        t = Tree(name)
     nodes = [t._root]
     for _ in range(n):
         p = rng.choice(nodes)
@@ -39,6 +75,7 @@ def rand_tree(rng, name, n):
 
 
 def edit(rng, t, k):
+    ALPH = MODE["alph"]
     for _ in range(k):
         nodes = list(t)
         op = rng.choice(["add", "add", "remove", "move", "reorder", "rename"])
@@ -93,6 +130,8 @@ def snap(t):
 
 def make_pair(case):
     rng = rng_for(case["seed"], "c11-pair")
+    MODE["alph"] = {0: ALPH, 1: ALPH, 2: ALPH_MIXED, 3: ALPH_OBJ}[case["seed"] % 4]
+    MODE["sub"] = case["seed"] % 5 == 0
     t0 = rand_tree(rng, "T0", rng.randint(0, 14))
     mode = case["mode"]
     if mode == "same":
@@ -138,6 +177,15 @@ def check(t0, t1, ordered, reduce, res):
         rec(t._root, ())
         return out
 
+    # every node of the result stands for a node of T1 (or, if it exists only there, of T0) and carries that node's data_id
+    ids0 = {tuple(p.data for p in n.get_parent_list(add_self=True)): n.data_id for n in t0}
+    ids1 = {tuple(p.data for p in n.get_parent_list(add_self=True)): n.data_id for n in t1}
+    for n in t2:
+        pth = tuple(p.data for p in n.get_parent_list(add_self=True))
+        want = ids1.get(pth, ids0.get(pth))
+        if want is not None and n.data_id != want:
+            errs.append(f"result node {pth} has data_id {n.data_id!r}, the input node has {want!r}")
+            break
     if P0 == P1:
         for n in t2:
             if n.get_meta("dc") is not None or n.get_meta("dc_renumbered"):
@@ -146,7 +194,7 @@ def check(t0, t1, ordered, reduce, res):
             errs.append(f"identical inputs, reduce=True, but {t2.count} nodes remain")
     if not reduce:
         q1 = proj(t2, (DC.REMOVED, DC.MOVED_TO))
-        if {k: sorted(v) for k, v in q1.items()} != {k: sorted(v) for k, v in P1.items()} or any(len(v) != len(set(v)) for v in q1.values()):
+        if {k: sorted(v, key=repr) for k, v in q1.items()} != {k: sorted(v, key=repr) for k, v in P1.items()} or any(len(v) != len(set(v)) for v in q1.values()):
             errs.append(f"T1 projection differs: {q1} vs {P1}")
         q0 = proj(t2, (DC.ADDED, DC.MOVED_HERE))
         for path, kids in P0.items():
@@ -273,7 +321,7 @@ def run_case(case, res):
 
 
 def paths_key(t):
-    return sorted((list(k), v) for k, v in paths(t).items())
+    return sorted(([repr(x) for x in k], [repr(x) for x in v]) for k, v in paths(t).items())
 
 
 NSHARDS = 16
